@@ -52,6 +52,14 @@ def _check_main(run, P):
              "dagrt's control exceptions", minimum=4)
     run.rule("C11.atomic", "the interpreter's call statement mutates the variable "
              "store only after the user function returned", minimum=1)
+    run.rule("C11.confined", "interpreter statement handlers and the evaluator keep every "
+             "run-time binding in self.context - the store the cleanup walks - and change "
+             "no other state of the interpreter", minimum=8)
+    run.rule("C11.order", "no handler of either back end touches the store entry of an "
+             "assignee before the last evaluation that can call a user function: the "
+             "interpreter changes an assignee only in the statement that stores the "
+             "evaluated value; the Python emitter writes an assignee's name only in the "
+             "line that carries the value", minimum=5)
     run.rule("C11.locals", "generated temporaries are function locals", minimum=3)
     run.rule("C11.phase", "next_phase is advanced before the phase body in both back "
              "ends (shared with C01.step)", minimum=2)
@@ -75,6 +83,8 @@ def _check_main(run, P):
         run.minimum.pop(r_, None)
     _transparent(run, P)
     _atomic(run, P)
+    _confined(run, P)
+    _order(run, P)
     _locals(run, P)
     _alias(run, "C01.step", "C11.phase", lambda: c01._step(run, P))
 
@@ -234,6 +244,206 @@ def _atomic(run, P):
            why="a store touched before the call is left modified when the call "
                "raises: a persistent assignee vanishes or changes although every "
                "write of it depends on the failed call")
+
+
+MUTATORS = {"pop", "popitem", "clear", "update", "setdefault", "append", "extend", "insert",
+            "remove", "add", "discard", "appendleft", "extendleft", "__setitem__", "__delitem__"}
+
+
+def _confined(run, P):
+    """Receivers of stores / mutating calls in the statement handlers: anything
+    reachable from self must be self.context (or a value held in it)."""
+    from ..engine import dataflow as df
+    C = P.cls(INTERP)
+    EM = P.cls("dagrt.expression.EvaluationMapper")
+    targets = [(f, ("SELF.context",)) for n, f in sorted(C.methods.items())
+               if n.startswith("exec_") or n == "evaluate_condition"]
+    targets += [(f, ()) for n, f in sorted(EM.methods.items()) if n.startswith("map_")]
+    if len(targets) < 8:
+        raise AnalysisError("statement handlers / evaluator methods not found")
+    for f, allowed in targets:
+        bad = []
+
+        def check_recv(node, recv, env):
+            for p_ in df.flat(df.prov(recv, env)):
+                if p_.startswith("SELF") and not any(p_.startswith(a) for a in allowed):
+                    bad.append((node, p_.replace("SELF", "self")))
+
+        def on_stmt(st, env, f_):
+            tg = []
+            if isinstance(st, ast.Assign):
+                tg = list(st.targets)
+            elif isinstance(st, (ast.AugAssign, ast.AnnAssign)):
+                tg = [st.target]
+            elif isinstance(st, ast.Delete):
+                tg = list(st.targets)
+            flat_t = []
+            for t in tg:
+                flat_t.extend(t.elts if isinstance(t, (ast.Tuple, ast.List)) else [t])
+            for t in flat_t:
+                if isinstance(t, (ast.Subscript, ast.Attribute)):
+                    check_recv(st, t.value, env)
+
+        def on_call(call, env, f_):
+            if isinstance(call.func, ast.Attribute) and call.func.attr in MUTATORS:
+                check_recv(call, call.func.value, env)
+
+        roots = {"self": "SELF"}
+        df.Scanner(P, f, roots, on_call, on_stmt=on_stmt).run()
+        seen = sorted({w for _, w in bad})
+        run.ob("C11.confined", f, bad[0][0] if bad else f.node, not bad,
+               construct=f"{f.cls.name}.{f.name}: state changed outside the variable store: "
+                         f"{seen if seen else 'none'}",
+               why="the cleanup at the end of a step (and a fresh stepper started from the "
+                   "store) knows only self.context: a binding kept anywhere else survives a "
+                   "failed step and makes stepping on differ from a fresh stepper")
+
+
+def _order(run, P):
+    """Evaluate, then store."""
+    from ..engine import dataflow as df
+    C = P.cls(INTERP)
+    n_sites = 0
+    for name, f in sorted(C.methods.items()):
+        if not name.startswith("exec_"):
+            continue
+        units = [f] + list(_all_nested(f))
+        for u in units:
+            g = CFG(u.node)
+            fn_names = set()
+            for s_ in ast.walk(u.node):
+                if isinstance(s_, ast.Assign) and isinstance(s_.value, ast.Subscript) \
+                        and (dotted(s_.value.value) or "").endswith("functions"):
+                    fn_names |= {t.id for t in s_.targets if isinstance(t, ast.Name)}
+
+            def evaluates(n):
+                for fr in own_fragments(n):
+                    for x in walk_fragment(fr):
+                        if isinstance(x, ast.Call):
+                            d = dotted(x.func) or ""
+                            if d.startswith("self.eval_mapper") or d == "self.evaluate_condition" \
+                                    or (isinstance(x.func, ast.Name) and x.func.id in fn_names):
+                                return True
+                return False
+
+            def loop_key(key):
+                # a loop identifier: a name unpacked from an element of a `loops` sequence
+                if not isinstance(key, ast.Name):
+                    return False
+                for s_ in ast.walk(f.node):
+                    tgt = None
+                    if isinstance(s_, ast.Assign) and len(s_.targets) == 1:
+                        tgt, src = s_.targets[0], s_.value
+                    elif isinstance(s_, ast.For):
+                        tgt, src = s_.target, s_.iter
+                    if tgt is None or not isinstance(tgt, (ast.Tuple, ast.List)) or not tgt.elts:
+                        continue
+                    first = tgt.elts[0]
+                    if isinstance(first, ast.Name) and first.id == key.id \
+                            and "loops" in ast.unparse(src):
+                        return True
+                return False
+
+            def store_mutation(n):
+                out = []
+                for fr in own_fragments(n):
+                    for x in walk_fragment(fr):
+                        if isinstance(x, ast.Subscript) and dotted(x.value) == "self.context" \
+                                and isinstance(x.ctx, (ast.Store, ast.Del)) and not loop_key(x.slice):
+                            out.append(x)
+                        if isinstance(x, ast.Call) and isinstance(x.func, ast.Attribute) \
+                                and dotted(x.func.value) == "self.context" and x.func.attr in MUTATORS \
+                                and not (x.args and loop_key(x.args[0])):
+                            out.append(x)
+                return out
+
+            evals = [n for n in g.nodes if evaluates(n)]
+            for n in g.nodes:
+                ms = store_mutation(n)
+                if not ms:
+                    continue
+                n_sites += 1
+                # loop heads enclosing the mutation: the next iteration is another element
+                heads = [h for h in g.nodes if h.kind in ("for", "test")
+                         and isinstance(h.label if h.kind == "test" else h.ast, (ast.For, ast.While))
+                         and any(x is (n.ast if n.kind == "stmt" else n.label)
+                                 for b in (h.label if h.kind == "test" else h.ast).body
+                                 for x in ast.walk(b))]
+                after = g.reachable([n], avoid=heads, follow_exc=False)
+                later = [e for e in evals if e in after and e is not n]
+                run.ob("C11.order", u, ms[0], not later,
+                       construct=f"{name}: {norm(ms[0], 50)} is not followed by an evaluation"
+                                 + (f" (followed by {norm(later[0].ast, 50)})" if later else ""),
+                       why="if that evaluation calls a user function that raises, the "
+                           "assignee has already lost its value from before the step although "
+                           "no assignment of the program completed")
+    # generated Python: an assignee's managed name is written only by the line that
+    # carries the printed value
+    G = P.cls("dagrt.codegen.python.CodeGenerator")
+    for name, f in sorted(G.methods.items()):
+        if not name.startswith("emit_inst_") or len(f.params) < 2:
+            continue
+        inst = f.params[1]
+        found = []
+
+        def on_call(call, env, f_):
+            d = dotted(call.func) or ""
+            if d in ("self._emit", "emitter", "self._emitter") and call.args:
+                names_assignee = False
+                has_value = False
+                for x in ast.walk(call.args[0]):
+                    if isinstance(x, ast.Subscript) and (dotted(x.value) or "").endswith("_name_manager"):
+                        pv = df.flat(df.prov(x.slice, env))
+                        if any(p_.startswith("assignee") for p_ in pv):
+                            names_assignee = True
+                    if isinstance(x, ast.Name):
+                        # a local built from the managed assignee names
+                        pv = env.get(x.id)
+                        if pv is not None and any(p_.startswith("@assignee") for p_ in df.flat(pv)):
+                            names_assignee = True
+                    if isinstance(x, ast.Call) and (dotted(x.func) or "") in (
+                            "self._expr", "self._expr_mapper", "self._expr_mapper.rec",
+                            "self._expr_mapper.map_generic_call"):
+                        has_value = True
+                if names_assignee:
+                    found.append((call, has_value))
+
+        def on_stmt(st, env, f_):
+            # remember locals built from managed assignee names
+            if isinstance(st, ast.Assign) and len(st.targets) == 1 and isinstance(st.targets[0], ast.Name):
+                for x in ast.walk(st.value):
+                    if isinstance(x, ast.Subscript) and (dotted(x.value) or "").endswith("_name_manager"):
+                        sub = env.child()
+                        # comprehension variables: look the slice up in the value itself
+                        pv = set(df.flat(df.prov(x.slice, env)))
+                        for c in ast.walk(st.value):
+                            if isinstance(c, ast.comprehension):
+                                df.bind_target(c.target, df.iter_elem(df.prov(c.iter, env)), sub)
+                        pv |= set(df.flat(df.prov(x.slice, sub)))
+                        if any(p_.startswith("assignee") for p_ in pv):
+                            env.vars[st.targets[0].id] = frozenset({"@assignee"})
+
+        df.Scanner(P, f, {inst: ""}, on_call, on_stmt=on_stmt).run()
+        seen = set()
+        for call, has_value in found:
+            key = norm(call, 70)
+            if key in seen:
+                continue
+            seen.add(key)
+            n_sites += 1
+            run.ob("C11.order", f, call, has_value,
+                   construct=f"{name}: a line that writes an assignee carries the printed value "
+                             f"({norm(call, 60)})",
+                   why="an assignee cleared or pre-set before the line that can raise is left "
+                       "changed when the user function fails")
+    if n_sites < 5:
+        raise AnalysisError(f"C11.order: only {n_sites} store / emission sites found")
+
+
+def _all_nested(f):
+    for g in f.nested.values():
+        yield g
+        yield from _all_nested(g)
 
 
 def _locals(run, P):
